@@ -1,13 +1,13 @@
 package main
 
 func init() {
-	regs := []string{"regimes/common", "regimes/de", "regimes/it", "regimes/fr", "regimes/pl", "regimes/gr", "regimes/at", "regimes/be", "regimes/ch", "regimes/co", "regimes/nl", "regimes/pt", "regimes/br", "regimes/in", "regimes/es"}
+	regs := []string{"regimes/common", "regimes/de", "regimes/it", "regimes/fr", "regimes/pl", "regimes/gr", "regimes/at", "regimes/be", "regimes/ch", "regimes/co", "regimes/nl", "regimes/pt", "regimes/br", "regimes/in", "regimes/es", "tax"}
 	reg(&propCfg{
 		ID:      "C13",
 		Pkgs:    regs,
 		Lenient: regs,
 		Stages: []stage{
-			{Name: "checkdigits", Harness: `^H_C13_(Luhn|DE|IT|FR|FR_SIREN|PL|GR|AT|BE|CH|NL_Digits|NL_Format|PT|PL_SingleDigit|IT_SingleDigit|CH_SingleDigit|FR_SingleDigit|BR|IN|ES_Personal|ES_Org)$`},
+			{Name: "checkdigits", Harness: `^H_C13_(Luhn|DE|IT|FR|FR_SIREN|PL|GR|AT|BE|CH|NL_Digits|NL_Format|PT|PL_SingleDigit|IT_SingleDigit|CH_SingleDigit|FR_SingleDigit|BR|IN|ES_Personal|ES_Org|NormalizeGeneric|CH_Normalize)$`},
 			{Name: "checkdigits-thorough", Harness: `^H_C13_(CO|NL|DE_SingleDigit|AT_SingleDigit|ES_SingleDigit)$`, ThoroughOnly: true, BudgetS: 150},
 		},
 		Functions: []string{"regimes/common.ComputeLuhnCheckDigit", "regimes/de.validateTaxCode+validateTaxCodeChecksum", "regimes/it.validateTaxCode", "regimes/fr.validateVATTaxCode+calculateVATCheckDigit+validateSIRENTaxCode",
@@ -17,10 +17,10 @@ func init() {
 		Stubs: []string{"regexp matching: NFA built with regexp/syntax from the pattern string given to regexp.MustCompile in the package initialiser", "regexp FindStringSubmatch / SubexpNames on symbolic strings: for anchored patterns whose pieces all have a fixed width the group offsets are computed from the pattern", "math.Mod/Floor on integer-valued floats; float64 division through the C05 float model",
 			"fmt.Sprintf (%02d, NL%sB%s): Go model", "errors.New executed; fmt.Errorf opaque"},
 		Bounds: map[string][]string{
-			"quick":    {"candidate code: every ASCII string (bytes 0..127, symbolic) at the national length and at length -1/+1 (BE: both admitted lengths and +-1), regimes DE IT FR PL GR AT BE CH NL PT BR IN + Luhn; ES: nine-character codes of the personal kind (DNI / NIE: accepted iff the letter rule holds, the never-issued all-zero DNI left open) and of the organisation kind (accepted only with a matching control digit or letter; every code valid under the strict official rule accepted)", "single-digit 2-safety: every position x every pair of codes (IT, FR, PL, CH)"},
+			"quick":    {"candidate code: every ASCII string (bytes 0..127, symbolic) at the national length and at length -1/+1 (BE: both admitted lengths and +-1), regimes DE IT FR PL GR AT BE CH NL PT BR IN + Luhn; ES: nine-character codes of the personal kind (DNI / NIE: accepted iff the letter rule holds, the never-issued all-zero DNI left open) and of the organisation kind (accepted only with a matching control digit or letter; every code valid under the strict official rule accepted)", "single-digit 2-safety: every position x every pair of codes (IT, FR, PL, CH)", "normalisation: tax.NormalizeIdentity on every ASCII string of 1..4 bytes (6 thorough): idempotent, insensitive to an inserted separator, to letter case and to a leading country prefix, digits kept; regimes/ch.normalizeTaxIdentity on a valid UID with every suffix in every letter case (symbolic) and separators"},
 			"thorough": {"quick plus CO and the single-digit 2-safety of DE, AT and the Spanish DNI"},
 		},
-		Outside:     []string{"GB (the range conditions of the implementation come from a third-party library, no published algorithm to compare with), MX (no check digit is validated), other regimes without a check digit", "codes shorter/longer by more than one byte than the national length", "non-ASCII bytes in candidate codes", "dispatch from tax.Identity.Validate through reflection-driven validation.ValidateStruct"},
+		Outside:     []string{"GB (the range conditions of the implementation come from a third-party library, no published algorithm to compare with), MX (no check digit is validated), other regimes without a check digit", "codes shorter/longer by more than one byte than the national length", "regime-specific normalisers other than the Swiss one", "non-ASCII bytes in candidate codes", "dispatch from tax.Identity.Validate through reflection-driven validation.ValidateStruct"},
 		Assumptions: []string{"reference algorithms written from the sources cited in each regime file (national schemes)", "go/ssa faithful; z3 sound"},
 	})
 }
@@ -266,8 +266,8 @@ func init() {
 		ID:      "C08",
 		Pkgs:    []string{".", "c14n"},
 		Lenient: []string{".", "head", "dsig", "schema", "uuid", "cbc", "c14n"},
-		Stages:  []stage{{Name: "canonical-strings-injective", Harness: `^H_C08_String`}, {Name: "digest-flow", Harness: `^H_C08_Digest`}},
-		Functions: []string{"gobl.(*Envelope).calculate", "gobl.(*Envelope).Digest", "gobl.(*Envelope).verifyDigest", "gobl.(*Envelope).ValidateWithContext/Validate", "dsig.(*Digest).Equals", "gobl.wrapError", "c14n.encodeString (two runs, 2-safety)"},
+		Stages:  []stage{{Name: "canonical-leaves-injective", Harness: `^H_C08_String|^H_C07_Float$|^H_C07_Integer$`}, {Name: "digest-flow", Harness: `^H_C08_Digest`}},
+		Functions: []string{"gobl.(*Envelope).calculate", "gobl.(*Envelope).Digest", "gobl.(*Envelope).verifyDigest", "gobl.(*Envelope).ValidateWithContext/Validate", "dsig.(*Digest).Equals", "gobl.wrapError", "c14n.encodeString (two runs, 2-safety)", "c14n.Float.MarshalJSON and c14n.Integer.MarshalJSON (the C07 harnesses: the canonical text keeps every digit of mantissa and exponent, so it determines the number)"},
 		Stubs: []string{"json.Marshal(document) = MARSHAL(content token), c14n.CanonicalJSON = C14N(.), sha256+hex (dsig.NewSHA256Digest) = SHA256(.): uninterpreted functions with injectivity instances (assumption)",
 			"schema.Object.Calculate and validation.ValidateStructWithContext: outcome given by the harness (both outcomes explored)", "native replays use real note.Message documents, real canonicalisation and SHA-256"},
 		Bounds: map[string][]string{
